@@ -264,6 +264,15 @@ Proof.
   repeat split; try reflexivity; cbn; lia.
 Qed.
 
+Lemma push_float_text_leaf : forall cfg t b, no_lf t -> parse_float t = PFok b ->
+  pushes_leaf cfg (x46 :: t ++ [x0a]) (TFloat b).
+Proof.
+  intros cfg t b Hn Hp i st rest. cbn [app]. rewrite <- app_assoc. cbn [app].
+  eexists; eexists; eexists. split.
+  - eapply exec_one; [reflexivity|reflexivity|]. cbn [handler run]. rewrite (split_line_exact _ rest Hn), Hp. reflexivity.
+  - repeat split; try reflexivity; cbn; lia.
+Qed.
+
 (* protocol 0: S "quoted" LF, the text produced by pyquote *)
 Lemma push_string_quoted_leaf : forall cfg isp s,
   pushes_leaf cfg (x53 :: pyquote isp s ++ [x0a]) (bytestring_t cfg s).
@@ -717,10 +726,13 @@ Section RT.
   Lemma rt_long : forall z, good (enc_long z) (TBig z).
   Proof. intros z. apply good_emit. apply push_long_text. Qed.
 
-  Lemma rt_float : forall f, (1 <= e_proto c)%Z -> f < 2 ^ 64 -> good (enc_float c f) (TFloat f).
+  Lemma rt_float : forall f, float_fits c f = true -> good (enc_float c f) (TFloat f).
   Proof.
-    intros f Hp Hf. unfold enc_float. apply Z.leb_le in Hp. rewrite Hp. apply good_emit.
-    apply push_binfloat. exact Hf.
+    intros f H. unfold float_fits in H. unfold enc_float. destruct (1 <=? e_proto c)%Z.
+    - apply N.ltb_lt in H. apply good_emit. apply push_binfloat. exact H.
+    - unfold fmtg_ok in H. destruct (parse_float (e_fmtg c f)) as [b| |] eqn:P; try discriminate.
+      apply andb_true_iff in H. destruct H as [Hb Hn]. apply N.eqb_eq in Hb. subst b.
+      apply good_emit. apply pushes_of_leaf. apply push_float_text_leaf; [exact Hn|exact P].
   Qed.
 
   Lemma rt_bytestring : forall s, (1 <= e_proto c)%Z -> Nlen s < 4294967296 ->
@@ -940,8 +952,7 @@ Section RT.
     - destruct (in_int64 z) eqn:E; [|discriminate]. inversion H; subst. apply rt_int. exact E.
     - destruct (0 <=? z)%Z eqn:E; [|discriminate]. inversion H; subst. apply rt_uint.
       apply Z.leb_le. exact E.
-    - destruct ((1 <=? e_proto c)%Z && (f <? 2 ^ 64)) eqn:E; [|discriminate]. inversion H; subst.
-      apply andb_true_iff in E. destruct E as [E1 E2]. apply rt_float; [apply Z.leb_le|apply N.ltb_lt]; assumption.
+    - destruct (float_fits c f) eqn:E; [|discriminate]. inversion H; subst. apply rt_float. exact E.
     - (* strings *)
       destruct ty; cbn [enc];
         match type of H with (if ?b then _ else _) = _ => destruct b eqn:E; [|discriminate] end;
